@@ -15,10 +15,10 @@ sys.path.insert(0, os.path.join(os.path.dirname(os.path.dirname(os.path.dirname(
 import schemawalk
 
 PROP = 'C03'
-COQ_TARGETS = ['theories/CodecFacts.vo', 'theories/CodecWf.vo', 'gen/Schemas.vo', 'theories/SchemaTables.vo']
+COQ_TARGETS = ['theories/CodecFacts.vo', 'theories/CodecWf.vo', 'theories/CodecTotal.vo', 'gen/Schemas.vo', 'theories/SchemaTables.vo']
 COQ_IMPORTS = ('From Bac Require Import Base.\nFrom Bac Require Import Tag.\nFrom Bac Require Import Schema.\n'
                'From Bac Require Import Codec.\nFrom BacGen Require Import Schemas.')   # one library per line: much faster to load
-TABLE_OBLIGATIONS = ['C03_all_wf', 'C03_supported_or_listed', 'C03_registries_shape']
+TABLE_OBLIGATIONS = ['C03_all_wf', 'C03_supported_or_listed', 'C03_all_supported', 'C03_registries_shape']
 RULE = ('cases: for each of the 58 registered PDUs and every Sequence/Choice class of apdu.py/basetypes.py (all, every run): presence '
         'patterns of its optional elements (all if <= 8 (quick) / 64 (thorough), else all-absent, all-present, each single one, '
         'random), every choice alternative, list lengths 0..3, nested values random to the depth of the type, leaves from boundary pools; '
@@ -954,6 +954,19 @@ def classify(failure):
     if failure.get('kind') == 'decode-refused' and failure.get('exc') == 'NotImplementedError' and \
             any(f.startswith('unctx-constructed-alternative:') for f in feats):
         return 'C03-K1'
+    # recorded deviations of a table from the standard's production: exactly the recorded element differs,
+    # in exactly the recorded way (anything else about the same production is a new violation)
+    if failure.get('kind') == 'schema-differs-from-standard' and 'implementation' in failure:
+        imp, std = failure['implementation'], failure['standard']
+        if len(imp) == len(std):
+            diff = [(i, g, w) for i, (g, w) in enumerate(zip(imp, std)) if list(g) != list(w)]
+            prod = failure.get('production')
+            if prod == 'NotificationParametersExtendedParametersType' and diff == [(8, [None, 'cons'], [0, 'cons'])]:
+                return 'C03-K1'
+            if prod == 'NotificationParametersExtended' and diff == [(2, [2, False, 'cons'], [2, False, 'seqof'])]:
+                return 'C03-K3'
+            if prod == 'NotificationParameters' and diff == [(6, [6, 'cons'], [6, 'seqof'])]:
+                return 'C03-K4'
     return None
 
 
